@@ -492,7 +492,14 @@ def block_diagonalize(
             to_eliminate = fully_diagonalize
             to_keep = {i: 1 - eliminate for i, eliminate in to_eliminate.items()}
         else:
-            to_keep = equal_eigs
+            # The kept elements are those within a degenerate subspace. Equality up to
+            # `atol` is not transitive, so we use its connected components.
+            to_keep = {}
+            for i, equal in equal_eigs.items():
+                _, labels = sparse.csgraph.connected_components(
+                    sparse.csr_array(np.array(equal, dtype=int)), directed=False
+                )
+                to_keep[i] = (labels.reshape(-1, 1) == labels).astype(int)
             to_eliminate = {i: 1 - keep for i, keep in to_keep.items()}
 
         # Convert numpy arrays to sympy matrices if blocks are symbolic.
